@@ -57,7 +57,7 @@ var c02Weights = baseWeights.with(Weights{"mint": 10, "localburn": 10, "burn": 1
 	"transfer": 5, "nfttransfer": 4, "multi": 5, "deliver": 10, "gas": 0, "epoch": 0})
 
 func TestC02(t *testing.T) {
-	runHistories(t, historyCfg{prop: "C02", weights: c02Weights, minSteps: 10, maxSteps: 60, nontrivial: func(rec *CallRecord, g *Gen) (string, bool) {
+	runHistories(t, historyCfg{prop: "C02", weights: c02Weights, minSteps: 10, maxSteps: 60, templates: singleNFTTemplates, templateP: 12, nontrivial: func(rec *CallRecord, g *Gen) (string, bool) {
 		if !supplyFns[rec.Call.Fn] && !(transferFns[rec.Call.Fn] && !rec.Res.OK()) {
 			return "", false
 		}
@@ -211,7 +211,7 @@ func c04RoundTrip(g *Gen) []Op {
 }
 
 func TestC04(t *testing.T) {
-	runHistories(t, historyCfg{prop: "C04", weights: c04Weights, minSteps: 12, maxSteps: 70, shadowOps: c04RoundTrip, shadowP: 3, nontrivial: func(rec *CallRecord, g *Gen) (string, bool) {
+	runHistories(t, historyCfg{prop: "C04", weights: c04Weights, minSteps: 12, maxSteps: 70, shadowOps: c04RoundTrip, shadowP: 3, templates: singleNFTTemplates, templateP: 12, nontrivial: func(rec *CallRecord, g *Gen) (string, bool) {
 		callerKind := "user"
 		if refIsSC(rec.Call.Caller) {
 			callerKind = "contract"
@@ -233,7 +233,7 @@ func TestC04(t *testing.T) {
 var c05Weights = baseWeights.with(Weights{"skv": 30, "mutate": 12, "unstructured": 8, "gas": 0, "epoch": 0})
 
 func TestC05(t *testing.T) {
-	runHistories(t, historyCfg{prop: "C05", weights: c05Weights, minSteps: 10, maxSteps: 60, nontrivial: func(rec *CallRecord, g *Gen) (string, bool) {
+	runHistories(t, historyCfg{prop: "C05", weights: c05Weights, minSteps: 10, maxSteps: 60, templates: singleNFTTemplates, templateP: 12, nontrivial: func(rec *CallRecord, g *Gen) (string, bool) {
 		if rec.Call.Fn == refBuiltInFunctionSaveKeyValue {
 			if _, ok := mustFailFor(rec, "C05"); ok {
 				return sprintf("skv-must-reject|%s|%s", outcomeOf(rec), shapeKey(g)), true
@@ -425,6 +425,51 @@ func TestC07(t *testing.T) {
 			}
 			return "", false
 		}})
+}
+
+// singleNFTTemplates: the system contract's freezeSingleNFT / unFreezeSingleNFT / wipeSingleNFT on a holding whose nonce has
+// bytes that mean something elsewhere ('-' separates ticker and suffix of an identifier, '@' separates arguments): the
+// create role arrives by a hand-over message with a counter just below such a nonce, the holder creates, the system
+// contract freezes (then unfreezes or wipes) exactly that (token, nonce) by its composed key.
+var singleNFTTemplates = []func(g *Gen, run func(Op) bool){
+	func(g *Gen, run func(Op) bool) {
+		m := g.e.M
+		tok := pickFrom(g, "ts-tok", [][]byte{[]byte("SFT-0a0b0c"), []byte("NFT-112233")})
+		if _, busy := g.createRoleBusy(tok); busy || m.Issued[string(tok)] > 0 || m.NShards < 2 {
+			return
+		}
+		a := g.addr("ts-a")
+		ext := bytes.Repeat([]byte{0x99}, 32)
+		ext[31] = byte((g.shard(a) + 1) % m.NShards)
+		cnt := pickFrom(g, "ts-counter", []uint64{0x012c, 0x2d2c, 0x2d00, 0x013f, 0x2c, 0x3f})
+		if !run(Op{Kind: "seed-handover", Call: &Call{Fn: refBuiltInFunctionESDTNFTCreateRoleTransfer, Caller: ext, Rcv: cp(a), Args: hbs(tok, beNonce(cnt))}}) {
+			return
+		}
+		if !run(g.byKind("deliver")) {
+			return
+		}
+		if !m.acc(g.shard(a), a).hasRole(tok, refESDTRoleNFTCreate) {
+			return
+		}
+		if !run(callOp(g.sysCall(g.shard(a), refBuiltInFunctionSetESDTRole, a, tok, []byte(refESDTRoleNFTAddQuantity)))) {
+			return
+		}
+		c := g.selfCall(refBuiltInFunctionESDTNFTCreate, a, tok, []byte{3}, []byte("n"), []byte{}, []byte("h"), []byte{}, []byte("u"))
+		c.Gas, c.CallType, c.GasLocked = ampleGas, 0, 0
+		if !run(callOp(c)) {
+			return
+		}
+		key := append(cp(tok), beNonce(cnt+1)...)
+		if !run(callOp(g.sysCall(g.shard(a), refBuiltInFunctionESDTFreeze, a, key))) {
+			return
+		}
+		switch g.pick("ts-then", 3) {
+		case 0:
+			run(callOp(g.sysCall(g.shard(a), refBuiltInFunctionESDTUnFreeze, a, key)))
+		case 1:
+			run(callOp(g.sysCall(g.shard(a), refBuiltInFunctionESDTWipe, a, key)))
+		}
+	},
 }
 
 var c07Templates = []func(g *Gen, run func(Op) bool){
